@@ -3,6 +3,7 @@
 //! traces that the Trace*.tla modules validate, or replays TLC-generated behaviours.
 
 mod enc;
+mod fill;
 mod gen;
 mod par;
 mod parcmd;
@@ -90,6 +91,8 @@ fn main() {
         "par-free" => parcmd::cmd_par_free(&a),
         "sched-one" => parcmd::cmd_sched_one(&a),
         "sink" => sink::cmd_sink(&a),
+        "faulty" => sink::cmd_faulty(&a),
+        "fill" => fill::cmd_fill(&a),
         other => {
             eprintln!("unknown subcommand {other:?}");
             std::process::exit(2);
